@@ -155,10 +155,12 @@ Print Assumptions C11_pointer_value_kept.
 (* ---- what "not bound" is ---------------------------------------------------------------- *)
 (* try_convert binds, or says "not convertible" (unmarshaler.go then keeps the value unchanged
    under its name among the unknown fields), or - only for a composite sent to a JSON-decoded
-   target - fails with ErrInternal.  It never panics; a scalar or nil never fails. *)
+   target (struct, map, slice, pointer to struct; array as of the fix for F16) - fails with ErrInternal.
+   It never panics; a scalar or nil never fails. *)
 Theorem C11_declined_is_none_or_fail : forall T v,
   (exists b, try_convert T v = Ok (Some b)) \/ try_convert T v = Ok None \/
-  (try_convert T v = Fail "internal" /\ exists id tbl id', v = DJ id tbl /\ T = FJson id').
+  (try_convert T v = Fail "internal" /\ exists id tbl id', v = DJ id tbl /\
+     (T = FJson id' \/ exists e, T = FOther id' kind_array e)).
 Proof. exact declined_is_none_or_fail. Qed.
 Print Assumptions C11_declined_is_none_or_fail.
 
